@@ -111,10 +111,14 @@ instance vacuumOKFromDec (last : Option (VRow K)) (del : List (VRow K)) :
     (vs : List (VRow K)) → Decidable (vacuumOKFrom last del vs)
   | [] => by unfold vacuumOKFrom; infer_instance
   | r :: rs => by
+    -- case on membership FIRST: only one recursive instance is evaluated per row (linear, not 2^n)
     unfold vacuumOKFrom
-    have := vacuumOKFromDec last del rs
-    have := vacuumOKFromDec (some r) del rs
-    cases last <;> infer_instance
+    by_cases h : r ∈ del
+    · rw [if_pos h]
+      have := vacuumOKFromDec last del rs
+      cases last <;> infer_instance
+    · rw [if_neg h]
+      exact vacuumOKFromDec (some r) del rs
 
 /-- Vacuum contract: only rows of the table are deleted, and per entity the deleted rows are
 exactly justified by equality with the immediately preceding surviving version. -/
